@@ -25,7 +25,7 @@ ASSUMPTIONS = [
 
 APIS = ("function", "method", "method_on_region_with_start", "function_on_region_with_start", "raw_file", "raw_file_lazy",
         "wav_file", "wav_file_lazy", "used_buffer_source", "used_reader", "stdin_pipe", "recorder_second_pass",
-        "region_with_conflicting_audio_kwargs", "split_and_plot", "own_validator_object")
+        "region_with_conflicting_audio_kwargs", "split_and_plot", "own_validator_object", "source_that_fails_once")
 
 
 def run_case(ctx, case, api=None):
@@ -113,6 +113,38 @@ def run_case(ctx, case, api=None):
             finally:
                 _sys.stdin = old_stdin
                 ps.close()
+        elif api == "source_that_fails_once":
+            # the audio source raises once in the middle of the stream (Ctrl-C delivered inside the read, a device error).  Either
+            # the exception reaches the caller - then the regions handed out before it are a prefix of the right answer - or
+            # split() finishes - then its answer is the whole right answer.  A truncated answer that looks complete is neither.
+            from auditok.io import BufferAudioSource
+
+            nb = max(1, len(verdicts))
+            fail_at = 1 + (case["pcm_seed"] >> 35) % nb
+            exc_type = (KeyboardInterrupt, OSError, TimeoutError, RuntimeError)[(case["pcm_seed"] >> 40) % 4]
+
+            class Flaky(BufferAudioSource):
+                vf_calls = 0
+
+                def read(self, size):
+                    Flaky.vf_calls += 1
+                    if Flaky.vf_calls == fail_at:
+                        e = exc_type("injected source fault")
+                        e.vf_injected = True
+                        raise e
+                    return super().read(size)
+
+            regions, propagated = [], False
+            try:
+                for r in auditok.split(Flaky(src_data, case["rate"], case["width"], case["channels"]), **kw):
+                    regions.append(r)
+            except BaseException as exc:
+                if not getattr(exc, "vf_injected", False):
+                    raise
+                propagated = True
+            ctx.count("source_faults_that_reached_the_caller" if propagated else "source_faults_absorbed_by_split")
+            if propagated:
+                expected = expected[: len(regions)]
         elif api == "own_validator_object":
             # the caller's own validator: an object that happens to be falsy (it keeps a history of its decisions, empty at the
             # start), a plain function, or a DataValidator subclass - it, not the default energy validator, decides every window
@@ -316,6 +348,6 @@ def replay(ctx, case):
 def inconclusive(merged, tier):
     c = merged["counters"]
     return [f"monitor never observed {k}" for k in
-            ("regions_observed", "regions_expected", "api_function", "api_method", "api_method_on_region_with_start", "api_function_on_region_with_start", "huge_window_cases", "cases_with_max_read_inside_a_window", "api_raw_file_lazy", "api_wav_file_lazy", "api_used_buffer_source", "api_used_reader", "api_stdin_pipe", "api_recorder_second_pass", "api_region_with_conflicting_audio_kwargs", "api_split_and_plot", "api_own_validator_object", "cases_threshold_zero", "nested_splits", "width_1", "width_2", "width_4",
+            ("regions_observed", "regions_expected", "api_function", "api_method", "api_method_on_region_with_start", "api_function_on_region_with_start", "huge_window_cases", "cases_with_max_read_inside_a_window", "api_raw_file_lazy", "api_wav_file_lazy", "api_used_buffer_source", "api_used_reader", "api_stdin_pipe", "api_recorder_second_pass", "api_region_with_conflicting_audio_kwargs", "api_split_and_plot", "api_own_validator_object", "api_source_that_fails_once", "cases_threshold_zero", "nested_splits", "width_1", "width_2", "width_4",
              "channels_1", "channels_2", "channels_3", "cases_with_partial_last_window", "regions_ending_in_partial_window",
              "cases_nonintegral_window", "repo_tests_split_regions_checked") if c.get(k, 0) == 0]
